@@ -157,121 +157,11 @@ def run_cfg(chk, facts, cfg):
     if chk.anchor('TryFrom<RangeInclusive<T>> for Interval' + sfx, f):
         fallible(f, 'try_from_range_inclusive', ['range'], [('bounds', {}, ['range.start', 'range.end'], two_case('range.start', 'range.end'))])
 
-    # who may construct a two-sided interval
-    allowed_traits = {'core::clone::Clone', 'core::ops::Add', 'core::ops::Sub', 'core::ops::Mul', 'core::ops::Div', 'core::ops::Neg',
-                      'serde::Deserialize', 'serde::de::Deserialize'}
-    from ..facts import norm_path
-    sites = []
-    for b in facts.raw['bodies']:
-        fn = facts.fns[b['def']]
-        for bl in b['blocks']:
-            if bl['cleanup']:
-                continue
-            for st in bl['stmts']:
-                rv = st.get('rv', {})
-                if rv.get('agg') == 'adt' and rv.get('adt') == m.path and rv.get('variant') == TWO:
-                    sites.append(fn)
-    callers = {}
-    for root, insts in facts.inst_roots.items():
-        for ins in insts:
-            for bb, c in ins['allcalls']:
-                if 'inst' in c:
-                    callers.setdefault(insts[c['inst']]['def'], set()).add(ins['def'])
-    for root, insts in facts.inst_roots.items():
-        for ins in insts:
-            for (bb, si), cid in ins['closuremap'].items():
-                callers.setdefault(insts[cid]['def'], set()).add(ins['def'])
-
-    def site_ok(fn, depth=0):
-        d = fn['id']
-        if fn['kind'] == 'Closure':
-            return site_ok(facts.fns[fn['parent']], depth + 1)
-        imp = facts.impls.get(fn.get('impl'))
-        if imp is not None and imp['self_ty'].get('adt') == m.path:
-            if imp['trait'] is None and fn.get('name') in ('new', 'relative_to') and fn.get('exported'):
-                return True
-            if imp['trait'] is not None and norm_path(imp['trait']) in allowed_traits:
-                return True
-        if not fn.get('exported') and (imp is None or imp['trait'] is None) and depth < 6:
-            # a private helper (free function, or inherent method of the interval type or of a private helper type)
-            # is as trusted as every site it is called from
-            cs = callers.get(d, set())
-            return bool(cs) and all(site_ok(facts.fns[c], depth + 1) for c in cs if c != d)
-        if fn.get('path', '').startswith('interval::_::') or 'serde' in fn.get('path', ''):
-            return imp is not None and imp.get('derived', False)
-        return False
-    def preserves(fn):
-        """An unlisted site: decide from its summary that every two-sided interval it returns / stores satisfies
-        low <= high, for well-formed interval operands and element operands in every weak order (parametricity: the
-        function may only compare, move and clone element values).  -> (True|False|None, detail)"""
-        while fn['kind'] == 'Closure':
-            fn = facts.fns[fn['parent']]
-        bases, extra, names = [], [], []
-        for i, ty in enumerate(fn.get('inputs') or []):
-            inner = ty.get('inner') if ty.get('k') == 'ref' else ty
-            nm = 'ABCDEFGH'[i] if i < 8 else 'P%d' % i
-            if inner.get('adt') == m.path:
-                bases.append(nm)
-            elif inner.get('k') == 'param':
-                nm = 'x%d' % i
-                extra.append(nm)
-            else:
-                return None, 'parameter #%d of type %s is neither an interval nor an element value' % (i, ty.get('s'))
-            names.append(nm)
-        try:
-            sx, paths = summarize(facts, fn, names)
-        except Unsupported as e:
-            return None, 'outside the analysable fragment: %s' % e
-        chk.saw(facts, fn, paths=len(paths))
-        n = 0
-
-        def two_sided_ok(v):
-            if isinstance(v, tuple) and v and v[0] == 'adt':
-                if v[1] == m.path and v[2] == TWO:
-                    d = m.decode(v)
-                    if not (isinstance(d[1], int) and isinstance(d[2], int)):
-                        raise NotParametric('bound of the result is not an input value')
-                    return d[1] <= d[2]
-                return all(two_sided_ok(x) for x in v[3])
-            if isinstance(v, tuple) and v and v[0] == 'tuple':
-                return all(two_sided_ok(x) for x in v[1])
-            return True
-        try:
-            for kinds, variants, env in m.classes(bases, extra):
-                n += 1
-                hits = [p for p in paths if guard_holds(p.guard, variants, env)]
-                if not hits:
-                    return None, 'no path covers class %s' % describe_env(env)
-                for p in hits:
-                    if p.unknowns:
-                        return None, 'unmodelled callee %s' % (p.unknowns[0][0],)
-                    if not p.is_ret():
-                        continue
-                    vals = ([p.ret] if p.ret is not None else []) + [v for v in (p.effects or {}).values() if v is not None]
-                    for v in vals:
-                        if not two_sided_ok(eval_term(v, env)):
-                            return False, 'for %s operands with %s it builds the two-sided interval %s with low > high' % (
-                                kinds_str(kinds) if kinds else 'element', describe_env(env) or 'no bounds', show_val(v)[:120])
-        except NotParametric as e:
-            return None, 'not parametric in the element values: %s' % e
-        return True, 'low <= high in all %d classes of well-formed operands' % n
-    seen = set()
-    for fn in sites:
-        if fn['id'] in seen:
-            continue
-        seen.add(fn['id'])
-        good, why = site_ok(fn), ''
-        if not good:
-            good, why = preserves(fn)
-            if good is None:
-                why = 'unlisted construction site of the two-sided variant, and low <= high could not be decided: ' + why
-            elif good is False:
-                why = 'unlisted construction site of the two-sided variant: ' + why
-        chk.ob('%s:construct:%s%s' % (PID, fn['path'], sfx), 'who-may-construct',
-               'a two-sided interval is built only by the checked constructor, clones, arithmetic on well-formed operands, or a function proven to keep low <= high',
-               good, why if good is not True else '', facts.loc(fn['id']))
+    # who may construct a two-sided interval (shared with C11: sa/construct.py)
+    from ..construct import obligation as who_may_construct
+    nsites = who_may_construct(chk, PID, facts, sfx, m, cfg)
     if cfg == 'default':
-        chk.floor('two-sided-construction-sites', len(seen), 4)
+        chk.floor('two-sided-construction-sites', nsites, 4)
 
     # ------------------------------------------------------------------ D2/D4/D5 per-kind tables
     def opt(v):
